@@ -8,7 +8,7 @@
 use super::*;
 use crate::common::deque::verif_deque as dq;
 use crate::common::frequency_sketch::verif_sketch as sk;
-use crate::verif_models::common::{instant_at, le, IdH, Val, HK, MAXN, W1, WT_A, YEARS_1000};
+use crate::verif_models::common::{instant_at, le, IdH, Val, HK, MAXN, W1, WT_A, WT_S, YEARS_1000};
 use std::hash::BuildHasherDefault;
 
 pub(crate) type BH = BuildHasherDefault<IdH>;
@@ -1398,6 +1398,9 @@ sh!(l_burst_ins1_inv1_ins1_room, l_burst(&sc(1, Some(3), false, W1, true, false,
 sh!(l_burst_upd0_inv0_room, l_burst(&sc(1, Some(3), false, W1, true, false, false, 1), 1, 0, &[Ins(0, 1), Inv(0)]));
 // a queued update of the resident that the admission of a hot newcomer picks as victim
 sh!(l_burst_ins1_upd0_cap1_hot, l_burst(&sc(1, Some(1), false, W1, false, false, false, 1), 2, 1, &[Ins(1, 0), Ins(0, 1)]));
+// weighted: the resident's update SHRINKS it (7 -> 3) while it is still counted with 7; the hot newcomer (1) is judged first
+sh!(l_burst_ins1_shrink0_w_cap7_hot, l_burst(&sc(1, Some(7), true, WT_S, false, false, false, 1), 2, 1, &[Ins(1, 0), Ins(0, 1)]));
+sh!(l_burst_shrink0_ins1_w_cap7_hot, l_burst(&sc(1, Some(7), true, WT_S, false, false, false, 1), 2, 1, &[Ins(0, 1), Ins(1, 0)]));
 sh!(l_burst_upd0_ins1_cap1_hot, l_burst(&sc(1, Some(1), false, W1, false, false, false, 1), 2, 1, &[Ins(0, 1), Ins(1, 0)]));
 
 // ================================================================================================
